@@ -21,13 +21,22 @@ type gval struct {
 	Expr *exprSpec
 }
 
+// exprSpec: gorm.Expr("<col of Src> + ?", N); Src < 0: gorm.Expr("? + ?", 90000, N) (no column; create
+// maps); Max: the value is a sub-query handle, db.Table(t).Select("max(<col of Src>)").
 type exprSpec struct {
 	Src int
 	N   int64
+	Max bool
 }
 
 func (g gval) render(m *model) string {
 	if g.Expr != nil {
+		switch {
+		case g.Expr.Max:
+			return fmt.Sprintf("SubQuery(max(%s))", m.Fields[g.Expr.Src].Col)
+		case g.Expr.Src < 0:
+			return fmt.Sprintf("Expr(90000 + %d)", g.Expr.N)
+		}
 		return fmt.Sprintf("Expr(%s + %d)", m.Fields[g.Expr.Src].Col, g.Expr.N)
 	}
 	if g.Zero {
@@ -86,7 +95,7 @@ func (c *cond) matches(row []cell) bool {
 
 type createRow struct {
 	PK   int64
-	PK2  cell // second key member (nil for single-member keys)
+	PK2  cell         // second key member (nil for single-member keys)
 	Vals map[int]gval // struct rows: fields that are not listed hold their zero value
 	Keys []kv         // map rows (the key, when given, is one of the entries)
 }
@@ -101,27 +110,64 @@ type op struct {
 	// "pointer" Updates(&V{ID}) | "value" Updates(V{ID}) | "same" Model(&V{ID}).Updates(&V) |
 	// "model+other" Model(&m{ID}).Updates(W) with W of a second struct type: same fields and columns, own
 	// permission tags (Other, one per field)
-	Mode     string
-	Other    []string
-	PK       int64 // primary key of the model value (0 = not set)
-	PK2      cell  // second member of a composite key (nil = the model has none)
+	Mode  string
+	Other []string
+	PK    int64 // primary key of the model value (0 = not set)
+	PK2   cell  // second member of a composite key (nil = the model has none)
 	// ModelKeys: the model value is a slice of key structs, Model(&[]T{{ID, Rev}, ...}) (update paths)
 	ModelKeys []rowKey
 	// firstorcreate-*: the chain names its model explicitly, Model(&T{}) with a zero key
 	ExplicitModel bool
-	Cond     *cond
-	Select   []string // nil = no Select call
-	Omit     []string
-	Struct   map[int]gval
-	Map      []kv
-	Rows     []createRow
-	Batch    int
-	Conflict string // "" | "nothing" | "updateall" | "doupdates"
-	DoCols   []int
+	Cond          *cond
+	Select        []string // nil = no Select call
+	Omit          []string
+	Struct        map[int]gval
+	Map           []kv
+	Rows          []createRow
+	Batch         int
+	Conflict      string // "" | "nothing" | "updateall" | "doupdates" | "doassign" (DoUpdates: clause.Assignments(literals))
+	DoCols        []int
+	DoVals        map[int]gval // doassign: the literal per column
+	// SetCol: a callback registered before gorm:update / gorm:create calls Statement.SetColumn(field, value)
+	SetCol *kv
+	// Form: the Go shape of the value: "" | "ptr-elems" ([]*T) | "array" ([n]T) | "ptr-map" (*map / Updates(&map))
+	Form string
+	// KeysPtr: the model slice holds pointers, Model(&[]*T{...})
+	KeysPtr bool
+	Hist    history
+}
+
+// history: how the chain value that runs the finisher came about.
+type history struct {
+	Handle      string // "" | "transaction" (db.Transaction(func)) | "begin-commit"
+	Decoy       bool   // the chain derives from a Session parent on which other chains were built and finished first
+	Context     bool   // WithContext
+	Scopes      bool   // the condition is applied through Scopes(func)
+	SkipHooks   bool   // Session{SkipHooks: true} (Updates / Update: then not a hook-running update)
+	Returning   bool   // Clauses(clause.Returning{})
+	SelectSlice bool   // Select([]string{...}) instead of Select(a, b...)
+}
+
+func (h history) String() string {
+	var parts []string
+	if h.Handle != "" {
+		parts = append(parts, h.Handle)
+	}
+	for _, x := range []struct {
+		on   bool
+		name string
+	}{{h.Decoy, "session-parent+decoys"}, {h.Context, "with-context"}, {h.Scopes, "cond-via-scopes"}, {h.SkipHooks, "Session{SkipHooks}"}, {h.Returning, "Returning{}"}, {h.SelectSlice, "select-slice"}} {
+		if x.on {
+			parts = append(parts, x.name)
+		}
+	}
+	return strings.Join(parts, ",")
 }
 
 func (o *op) isCreate() bool { return strings.HasPrefix(o.Kind, "create") || o.Kind == "save-slice" }
-func (o *op) hooks() bool    { return !strings.HasPrefix(o.Kind, "updatecolumn") }
+func (o *op) hooks() bool {
+	return !strings.HasPrefix(o.Kind, "updatecolumn") && !o.Hist.SkipHooks
+}
 
 func renderVals(m *model, vals map[int]gval) string {
 	idx := make([]int, 0, len(vals))
@@ -158,6 +204,9 @@ func (o *op) render(m *model) string {
 			b.WriteString(" Model(zero)")
 		}
 		if o.ModelKeys != nil {
+			if o.KeysPtr {
+				b.WriteString(" []*T")
+			}
 			fmt.Fprintf(&b, " keys=%v where(%s)", o.ModelKeys, o.Cond.render(m))
 		} else if o.PK2 != nil {
 			fmt.Fprintf(&b, " key=(%d,%s) where(%s)", o.PK, cellStr(o.PK2), o.Cond.render(m))
@@ -195,8 +244,20 @@ func (o *op) render(m *model) string {
 		b.WriteString(" OnConflict{" + o.Conflict)
 		for _, c := range o.DoCols {
 			b.WriteString(" " + m.Fields[c].Col)
+			if g, ok := o.DoVals[c]; ok {
+				b.WriteString("=" + g.render(m))
+			}
 		}
 		b.WriteString("}")
+	}
+	if o.SetCol != nil {
+		fmt.Fprintf(&b, " callback:SetColumn(%q, %s)", o.SetCol.Key, o.SetCol.V.render(m))
+	}
+	if o.Form != "" {
+		b.WriteString(" form=" + o.Form)
+	}
+	if h := o.Hist.String(); h != "" {
+		b.WriteString(" history=" + h)
 	}
 	return b.String()
 }
@@ -227,8 +288,8 @@ func (m *model) selection(o *op) selection {
 	return s
 }
 
-func (s selection) in(i int) bool  { return !s.has || s.star || s.sel[i] }
-func (s selection) list() bool     { return s.has && !s.star }
+func (s selection) in(i int) bool    { return !s.has || s.star || s.sel[i] }
+func (s selection) list() bool       { return s.has && !s.star }
 func (s selection) named(i int) bool { return s.has && (s.star || s.sel[i]) }
 
 // ---- prediction ----------------------------------------------------------------------------
@@ -244,9 +305,29 @@ type prediction struct {
 	empty    bool // a created row proposes no column at all
 }
 
-func evalWrite(before []cell, g gval) cell {
+func evalWrite(t *table, before []cell, g gval) cell {
 	if g.Expr == nil {
 		return g.Cell
+	}
+	if g.Expr.Src < 0 {
+		return 90000 + g.Expr.N
+	}
+	if g.Expr.Max {
+		// the sub-query sees the table as it was before the statement
+		var best cell
+		for _, r := range t.rows {
+			switch x := r[g.Expr.Src].(type) {
+			case int64:
+				if b, ok := best.(int64); !ok || x > b {
+					best = x
+				}
+			case float64:
+				if b, ok := best.(float64); !ok || x > b {
+					best = x
+				}
+			}
+		}
+		return best
 	}
 	switch x := before[g.Expr.Src].(type) {
 	case int64:
@@ -258,6 +339,40 @@ func evalWrite(before []cell, g gval) cell {
 }
 
 func predict(m *model, before *table, o *op) prediction {
+	if o.SetCol != nil {
+		// a value set through Statement.SetColumn counts as given by the caller
+		c := *o
+		c.SetCol = nil
+		switch {
+		case o.Map != nil:
+			c.Map = nil
+			for _, e := range o.Map {
+				if e.F != o.SetCol.F {
+					c.Map = append(c.Map, e)
+				}
+			}
+			c.Map = append(c.Map, *o.SetCol)
+		case o.Struct != nil:
+			c.Struct = map[int]gval{o.SetCol.F: o.SetCol.V}
+			for i, g := range o.Struct {
+				if i != o.SetCol.F {
+					c.Struct[i] = g
+				}
+			}
+		default:
+			c.Rows = nil
+			for _, r := range o.Rows {
+				vals := map[int]gval{o.SetCol.F: o.SetCol.V}
+				for i, g := range r.Vals {
+					if i != o.SetCol.F {
+						vals[i] = g
+					}
+				}
+				c.Rows = append(c.Rows, createRow{PK: r.PK, PK2: r.PK2, Vals: vals})
+			}
+		}
+		return predict(m, before, &c)
+	}
 	p := prediction{want: before.clone()}
 	sel := m.selection(o)
 	if o.Kind == "save-slice" {
@@ -371,7 +486,7 @@ func predict(m *model, before *table, o *op) prediction {
 					structWrites(!sel.has)
 					row := p.want.rows[m.keyOf(o.PK, o.PK2)]
 					for i, g := range writes {
-						row[i] = oneOf{old[i], evalWrite(old, g)}
+						row[i] = oneOf{old[i], evalWrite(before, old, g)}
 					}
 				}
 				return p
@@ -428,7 +543,7 @@ func predict(m *model, before *table, o *op) prediction {
 			}
 			p.targeted++
 			for i, g := range writes {
-				p.want.rows[id][i] = evalWrite(row, g)
+				p.want.rows[id][i] = evalWrite(before, row, g)
 				p.written++
 			}
 			continue
@@ -448,13 +563,13 @@ func predict(m *model, before *table, o *op) prediction {
 		if !allZero && !exact {
 			p.partial++
 			for i, g := range writes {
-				p.want.rows[id][i] = oneOf{row[i], evalWrite(row, g)}
+				p.want.rows[id][i] = oneOf{row[i], evalWrite(before, row, g)}
 			}
 			continue
 		}
 		p.targeted++
 		for i, g := range writes {
-			p.want.rows[id][i] = evalWrite(row, g)
+			p.want.rows[id][i] = evalWrite(before, row, g)
 			p.written++
 		}
 	}
@@ -494,7 +609,7 @@ func predictCreate(m *model, p *prediction, o *op, sel selection, rows []createR
 			g, ok := given[i]
 			if isMap {
 				if ok && sel.in(i) {
-					proposed[i] = g.Cell
+					proposed[i] = evalWrite(nil, nil, g)
 				} else if !ok && f.Auto != "" {
 					loose[i] = nowCell(f) // creating from a map: tracked times are not documented
 				}
@@ -518,6 +633,10 @@ func predictCreate(m *model, p *prediction, o *op, sel selection, rows []createR
 			}
 			if f.DBDefault != "" && g.Zero {
 				continue // documented: a zero value is not saved for a field with a default; the database fills it
+			}
+			if f.GoDefault != nil && g.Zero {
+				proposed[i] = f.GoDefault // documented: a zero value is replaced by the declared default
+				continue
 			}
 			if f.Auto != "" && g.Zero {
 				proposed[i] = nowCell(f) // tracked times start at the current time
@@ -545,7 +664,7 @@ func predictCreate(m *model, p *prediction, o *op, sel selection, rows []createR
 				for i, c := range proposed {
 					f := m.Fields[i]
 					_, _, upd := f.perms()
-					if f.PK || !upd || f.DBDefault != "" {
+					if f.PK || !upd || (f.DBDefault != "" && f.DBDefault != "null") {
 						// documented: UpdateAll updates all columns "except primary keys and those columns
 						// having default values from sql func"
 						continue
@@ -566,6 +685,11 @@ func predictCreate(m *model, p *prediction, o *op, sel selection, rows []createR
 					if _, _, upd := m.Fields[i].perms(); upd {
 						old[i] = oneOf{old[i], c}
 					}
+				}
+			case "doassign":
+				for _, i := range o.DoCols {
+					old[i] = o.DoVals[i].Cell // the caller's literal assignment
+					p.written++
 				}
 			case "doupdates":
 				for _, i := range o.DoCols {
